@@ -355,6 +355,20 @@ def c19_pre(ctx, case):
     s2 = np.asarray(p2.psd).astype(complex)
     ctx.close(s2, s1, "MultiTapering PSD with precomputed tapers vs computed (method=%s)" % meth,
               rtol=1e-12, atol=1e-12 * float(np.max(np.abs(s1))))
+    # the tapers supplied together with the NW they were built for (redundant, consistent information): the supplied tapers
+    # are the ones used, whatever their number
+    c = spectrum.pmtm(x, NW=NW, e=lam, v=tapers, NFFT=nfft, method=meth)
+    for name, u, v in zip(("Sk", "weights", "eigenvalues"), a, c):
+        u = np.asarray(u)
+        v = np.asarray(v)
+        ctx.check(u.shape == v.shape, "pmtm(NW=, e=, v=): %s has shape %s, %s with the same tapers computed from NW, k" % (name, v.shape, u.shape),
+                  sig={"clause": "NW+tapers"})
+        ctx.close(v.astype(complex), u.astype(complex), "pmtm %s with NW and precomputed tapers vs computed (method=%s)" % (name, meth),
+                  rtol=1e-12, atol=1e-12 * float(np.max(np.abs(u))), sig={"clause": "NW+tapers"})
+    p3 = spectrum.MultiTapering(x, NW=NW, e=lam, v=tapers, NFFT=case["NFFT"], method=meth, scale_by_freq=False)
+    s3 = np.asarray(p3.psd).astype(complex)
+    ctx.close(s3, s1, "MultiTapering PSD with NW and precomputed tapers vs computed (method=%s)" % meth,
+              rtol=1e-12, atol=1e-12 * float(np.max(np.abs(s1))), sig={"clause": "NW+tapers"})
 
 
 # ---- number-type invariance (integer samples of a narrow dtype) -------------------
